@@ -24,7 +24,7 @@ ASSUMPTIONS = [
     "parent links of nodes that no node lists are not constrained (the library keeps stale links after remove/replace/clear); "
     "get_ancestry is compared from the model root downwards and is not called when stale links close a cycle (it would not return)",
     "find_single_node_by_path follows the first child of each name (as documented), find_all_nodes_by_path all of them",
-    "replace_child is driven with delete_old=False here; registry effects are C14's subject",
+    "replace_child is driven with delete_old=False in the exhaustive part and with both settings in the random histories (the default deletes the old subtree from the registry, which is C14's subject; the ordered-tree invariants must hold regardless)",
 ]
 REQUIRED = ["steps", "failing_edits", "edge_shifts_positional", "edge_shifts_samename", "query_evaluations", "states_expanded"]
 EXHAUSTIVE = {"quick": False, "thorough": False}
@@ -78,7 +78,7 @@ def apply_model(f, op):
         return f.add_child(op[1], op[2], op[3])
     if k == "remove":
         return f.remove_child(op[1], op[2])
-    if k == "replace":
+    if k in ("replace", "replace_del"):
         return f.replace_child(op[1], op[2], op[3])
     if k == "shift":
         return f.shift(op[1], op[2], op[3], op[4])
@@ -101,6 +101,8 @@ def apply_real(nodes, op):
         return nodes[op[1]].remove_child(nodes[op[2]])
     if k == "replace":
         return nodes[op[1]].replace_child(nodes[op[2]], nodes[op[3]], delete_old=False)
+    if k == "replace_del":
+        return nodes[op[1]].replace_child(nodes[op[2]], nodes[op[3]])  # the default: the old child leaves the registry
     if k == "shift":
         return nodes[op[1]].shift(nodes[op[2]], Shift.RIGHT if op[3] else Shift.LEFT, sib=op[4])
     if k == "clear":
@@ -377,6 +379,10 @@ def random_history(ctx, n_nodes, n_ops, hist_no):
                     new = rng.choice(same)
                 if old not in (p, new):
                     op = ("replace", p, old, new)
+                    # the default call also deletes the old subtree from the registry; only generated while that subtree is
+                    # still fully registered (deleting twice is a misuse, not an edit)
+                    if rng.random() < 0.5 and all(Node.get_node_instance(nodes[x].id) is nodes[x] for x in [old] + f.descendants(old)):
+                        op = ("replace_del", p, old, new)
         elif k < 0.97:
             c = rng.choice(f.kids[p]) if f.kids[p] and rng.random() < 0.9 else rng.randrange(n_nodes)
             if c != p:
